@@ -22,11 +22,13 @@ SHAPES_W = ["{0} + 0", "1 ? {0} : 0", "{0} | 0", "{0} & 0xff", "{0} ^ 0"]
 
 # kind: P pointer rvalue (uint8_t *), L integer output lvalue, V 64-bit value rvalue, W width rvalue, S signed in/out lvalue
 # setup: "put"  = buffer filled with 0xA5, macro writes; "get:<family>" = buffer pre-encoded with the family's put
+VALUES = [0, 1, 63, 64, 200, 240, 241, 3000, 16446, 16447, 70000, 4210749, 4210750, (1 << 24) + 5, (1 << 32) + 9, (1 << 36) + 1, (1 << 40) + 3,
+          (1 << 44) + 7, (1 << 48) + 5, (1 << 52) + 11, (1 << 56) - 1, (1 << 60) + 13, 1 << 63, (1 << 64) - 1]
 MACROS = []
 
 
-def M(name, ops, setup, wexpr=None, guard=None, values=None):
-    MACROS.append(dict(name=name, ops=ops, setup=setup, wexpr=wexpr, guard=guard, values=values))
+def M(name, ops, setup, wexpr=None, guard=None, values=None, expr=False):
+    MACROS.append(dict(name=name, ops=ops, setup=setup, wexpr=wexpr, guard=guard, values=values, expr=expr))
 
 
 M("varintTaggedPut64FixedWidthQuick_", "PVW", "put", wexpr="(int)varintTaggedLen(V)")
@@ -48,6 +50,11 @@ for fam, nz in (("Split", 0), ("SplitFull", 0), ("SplitFullNoZero", 1), ("SplitF
         M("varint%sReversedPutForward_" % fam, "PLV", "putrev", guard=g)
         M("varint%sReversedPutReversed_" % fam, "PLV", "putrevlast", guard=g)
         M("varint%sReversedGet_" % fam, "PLL", "getrev:%s" % fam, guard=g)
+M("varintTaggedLenQuick", "V", "none", expr=True)
+M("varintTaggedGet64Quick_", "P", "get:tagged", expr=True)
+M("varintTaggedGetLenQuick_", "P", "get:tagged", expr=True)
+for fam, nz in (("Split", 0), ("SplitFull", 0), ("SplitFullNoZero", 1), ("SplitFull16", 0)):
+    M("varint%sGetLenQuick_" % fam, "P", "get:%s" % fam, expr=True, guard="V != 0" if nz else None)
 M("varintPrepareSigned_", "SW", "signed", values="SIGNED_EXT")
 M("varintRestoreSigned_", "SW", "signedback", values="SIGNED_EXT")
 
@@ -55,7 +62,7 @@ BIT_MACROS = []
 
 
 def B(name, ops, setup):
-    BIT_MACROS.append(dict(name=name, ops=ops, setup=setup, wexpr=None, guard=None, values="SIGNED_BITS"))
+    BIT_MACROS.append(dict(name=name, ops=ops, setup=setup, wexpr=None, guard=None, values="SIGNED_BITS", expr=False))
 
 
 B("_varintBitstreamPrepareSigned", "SW", "signedbits")
@@ -88,6 +95,8 @@ def gen_macro(m, fn_prefix):
         args = []
         for k, nm, sh in zip(ops, names, shapes):
             args.append("(%s)" % nm if False else (sh.format(nm) if sh else nm))
+        if m.get("expr"):
+            return "EXPRSTATE.l[0] = (uint64_t)%s(%s);" % (name, ", ".join(args))
         return "%s(%s);" % (name, ", ".join(args))
 
     def block(names, shapes, state, label):
@@ -110,7 +119,7 @@ def gen_macro(m, fn_prefix):
                 emit("            " + decl("W", nm, "WV"))
             elif k == "S":
                 emit("            " + decl("S", nm, "SV"))
-        emit("            " + call(names, shapes))
+        emit("            " + call(names, shapes).replace("EXPRSTATE", state))
         li = 0
         for k, nm in zip(ops, names):
             if k in "LS":
@@ -134,6 +143,24 @@ def gen_macro(m, fn_prefix):
             block(neutral, sl, "got_", "operand %d written as '%s'" % (pos + 1, sh.format("a")))
     emit("        vh_count(\"calls\", %d);" % (1 + sum(len(NAMES) + (5 if k in "VW" else 0) for k in ops)))
     emit("    }")
+    # compile-time constant operands (__builtin_constant_p paths, constant folding): the value operand as a literal
+    if "V" in ops and not m["values"]:
+        pos = ops.index("V")
+        for v in VALUES:
+            emit("    {")
+            emit("        uint64_t V = %dULL;" % v)
+            emit("        int WV = %s;" % (m["wexpr"] or "0"))
+            emit("        hyg_state ref_, got_;")
+            if m["guard"]:
+                emit("        if (%s) {" % m["guard"])
+            else:
+                emit("        {")
+            block(neutral, [None] * len(ops), "ref_", None)
+            sl = [None] * len(ops)
+            sl[pos] = "%dULL" % v
+            block(neutral, sl, "got_", "operand %d written as the literal %dULL" % (pos + 1, v))
+            emit("        }")
+            emit("    }")
     emit("}")
     emit("")
 
@@ -146,6 +173,7 @@ emit("#define HYG_ATTR __attribute__((optnone, noinline, no_sanitize(\"address\"
 emit("#else")
 emit("#define HYG_ATTR __attribute__((optimize(\"O0\"), noinline))")
 emit("#endif")
+emit("static const uint64_t HYG_VALUES[] = {%s};" % ", ".join("%dULL" % v for v in VALUES))
 emit("#ifdef HYG_SCALAR")
 for m in MACROS:
     gen_macro(m, "hyg")
